@@ -362,7 +362,7 @@ def run_check(prop, tier):
             suffix = ""
             if v["kind"] in ("proof-obligation-broken", "harness-build-failed", "stream-crashed") and not has_input:
                 suffix = " no-failing-input-found"
-            elif v["kind"] == "model-vs-impl" and not any(x["kind"].startswith("oracle") for x in real):
+            elif v["kind"] == "model-vs-impl" and not cfg.get("model_is_spec") and not any(x["kind"].startswith("oracle") or x["kind"] == "probe" for x in real):
                 # correspondence broke, the direct oracle saw no property failure on the explored inputs
                 suffix = " no-failing-input-found"
             out_lines.append("VIOLATION property=%s replay=%s%s" % (prop, path, suffix))
